@@ -749,7 +749,11 @@ def ctrOf (obj : String) : Option Ctr :=
 def events (kind : String) (_ : St) (l : RawLine) : Except String (List Ev) :=
   let g := l.g
   match l.tag, l.f with
-  | "A", _ => .error "NA adapter-backed queue"
+  -- adapter-backed queues: an accepted Enqueue of the recording adapter is the accepted submission (the producer's Add
+  -- counts it on a persistent queue, the consumer's notification handler — called by the adapter in the same goroutine —
+  -- on a distributed one); entries that were on the adapter before the bind are never counted
+  | "A", [_, "enq", _, "true"] => .ok [.enqOk g]
+  | "A", _ => .ok []
   | "W", "enter" :: _ => .ok [.enter g]
   -- a plain worker function (NewWorker) has no error result: only a panic (2) makes the job fail
   | "W", ["exit", _, oc] => .ok [.exit g (if kind == "plain" then oc == "2" else oc != "0")]
